@@ -167,8 +167,10 @@ class SelectEventLoop(EventLoop):
         """
         Call all the registered idle callbacks.
         """
-        for callback in self._idle_callbacks.values():
-            callback()
+        for handle, callback in list(self._idle_callbacks.items()):
+            # an idle callback may add or remove idle callbacks (itself included)
+            if handle in self._idle_callbacks:
+                callback()
 
     def run(self) -> None:
         """
